@@ -42,7 +42,7 @@ def range_fixes(cfg, tier, seed):
     rng = random.Random(seed * 1000003 + sb * 131 + wb)
     vals += [rng.randrange(lo, mx + 1) for _ in range(2 if tier == 'quick' else 10)]
     if tier == 'quick': vals = vals[:4] + vals[6:]
-    out = [dict(range=v) for v in vals]
+    out = [dict(range=v, range0=v) for v in vals]
     return ([None] if sb <= 16 else []) + out
 
 def cuts_fixes(cfg, tier, seed):
@@ -65,7 +65,7 @@ PROPS['C01'] = dict(
     obligations=[
         L('c01_step', 'k_c01_step_{cfg}', QUICK, ALL, fixes=cuts_fixes),
         L('c01_batch_eq_loop', 'k_c01_batch_{cfg}', ['u8_u16_p4', 'u32_u64_p24'], ['u8_u16_p4', 'u8_u16_p8', 'u16_u32_p12', 'u32_u64_p24'], cap=dict(quick=60, thorough=600)),
-        L('c01_batch_dec_eq_loop', 'k_c01_batch_dec_{cfg}', ['u8_u16_p4', 'u32_u64_p24'], ['u8_u16_p4', 'u16_u32_p12', 'u32_u64_p24'], cap=dict(quick=60, thorough=600)),
+        L('c01_batch_dec_eq_loop', 'k_c01_batch_dec_{cfg}', ['u8_u16_p4'], ['u8_u16_p4', 'u16_u32_p12', 'u32_u64_p24'], cap=dict(quick=60, thorough=600)),
         K('c01_ctor_u8_u16', 'ans', 'ctor_u8_u16'), K('c01_ctor_u16_u32', 'ans', 'ctor_u16_u32'), K('c01_ctor_u32_u64', 'ans', 'ctor_u32_u64'),
         K('c01_ctor_u8_u32', 'ans', 'ctor_u8_u32', tiers=('thorough',)),
         K('c01_export_u8_u16', 'ans', 'export_u8_u16'), K('c01_export_u16_u32', 'ans', 'export_u16_u32'), K('c01_export_u32_u64', 'ans', 'export_u32_u64'),
@@ -97,6 +97,14 @@ PROPS['C04'] = dict(
     assumptions=['Inv_ans assumed on symbolic pre-states and proved preserved'],
 )
 
+def cuts2_fixes(cfg, tier, seed):
+    """two-step chain kernel: both models concrete (same cut points for both steps, incl. power-of-two probabilities), heads and data words symbolic"""
+    wb, sb, p = cfg_bits(cfg)
+    T = 1 << p
+    pairs = [(T // 2, T // 2 + 1), (1, 2), (1, T - 1), (T // 4, T // 2), (T // 3, 2 * T // 3 + 1)]
+    if tier == 'quick': pairs = pairs[:3]
+    return [dict(c1=a, c2=b, d1=a, d2=b) for a, b in pairs if 0 < a < b < T]
+
 RS = ['u8_u16_p4', 'u8_u16_p8']
 RQ = ['u8_u16_p4', 'u16_u32_p12', 'u32_u64_p24']
 RALL = ['u8_u16_p4', 'u8_u16_p8', 'u8_u32_p8', 'u16_u32_p12', 'u16_u32_p16', 'u16_u64_p16', 'u32_u64_p24', 'u32_u64_p32']
@@ -105,6 +113,7 @@ INV_SOFT = [20, 21, 22, 23]
 PROPS['C02'] = dict(
     obligations=[
         L('c02_rt_k1', 'k_c02_rt_k1_{cfg}', RQ, RALL, fixes=range_fixes),
+        L('c02_rt_from_inverted', 'k_c02_rt_inv_k1_{cfg}', RQ, ['u8_u16_p4', 'u8_u16_p8', 'u16_u32_p12', 'u16_u32_p16', 'u32_u64_p24', 'u32_u64_p32'], fixes=range_fixes),
         L('c02_rt_k2', 'k_c02_rt_k2_{cfg}', ['u8_u16_p4'], ['u8_u16_p4', 'u8_u16_p8', 'u8_u32_p8', 'u16_u32_p12', 'u32_u64_p24'], cap=dict(quick=90, thorough=600)),
         L('c02_rt_k3', 'k_c02_rt_k3_{cfg}', [], ['u8_u16_p4', 'u8_u16_p8'], cap=dict(quick=90, thorough=900)),
         L('c02_fresh_k2', 'k_c02_fresh_k2_{cfg}', ['u8_u16_p4'], ['u8_u16_p4', 'u8_u16_p8', 'u8_u32_p8', 'u16_u32_p12', 'u32_u64_p24'], cap=dict(quick=90, thorough=600)),
@@ -138,6 +147,7 @@ PROPS['C10'] = dict(
 PROPS['C11'] = dict(
     obligations=[
         L('c11_suffix_k1', 'k_c11_suffix_k1_{cfg}', RQ, ['u8_u16_p4', 'u8_u16_p8', 'u16_u32_p12', 'u16_u32_p16', 'u32_u64_p24', 'u32_u64_p32'], fixes=range_fixes),
+        L('c11_suffix_from_inverted', 'k_c11_suffix_inv_k1_{cfg}', RQ, ['u8_u16_p4', 'u8_u16_p8', 'u16_u32_p12', 'u16_u32_p16', 'u32_u64_p24', 'u32_u64_p32'], fixes=range_fixes),
         L('c11_suffix_k2', 'k_c11_suffix_k2_{cfg}', ['u8_u16_p4'], ['u8_u16_p4', 'u8_u16_p8', 'u16_u32_p12', 'u32_u64_p24'], cap=dict(quick=90, thorough=600)),
         K('c11_suffix_k1_u8_u16_p8_cbmc', 'kk', 'c11_suffix_k1_u8_u16_p8', tq=900),
     ],
@@ -151,7 +161,7 @@ CH_ALL = ['u8_u16_p4', 'u8_u16_p8', 'u8_u32_p8', 'u16_u32_p12', 'u16_u32_p16', '
 PROPS['C13'] = dict(
     obligations=[
         L('c13_step', 'k_c13_step_{cfg}', CH_Q, CH_ALL, soft=[20, 21], fixes=cuts_fixes),
-        L('c13_step2', 'k_c13_step2_{cfg}', ['u8_u16_p4'], ['u8_u16_p4', 'u8_u16_p8', 'u16_u32_p12', 'u32_u64_p24'], cap=dict(quick=90, thorough=600)),
+        L('c13_step2', 'k_c13_step2_{cfg}', ['u8_u16_p4'], ['u8_u16_p4', 'u8_u16_p8', 'u16_u32_p12', 'u32_u64_p24'], fixes=cuts2_fixes, cap=dict(quick=60, thorough=300)),
         L('c13_heads_io', 'k_c13_io_{cfg}', ['u8_u16_p4', 'u8_u16_p8', 'u16_u32_p12', 'u32_u64_p24'], ['u8_u16_p4', 'u8_u16_p8', 'u8_u32_p8', 'u16_u32_p12', 'u32_u64_p24']),
         L('c13_precision', 'k_c13_prec_{cfg}', ['u8_u16_p4_p8', 'u8_u16_p8_p3', 'u16_u32_p12_p16', 'u32_u64_p24_p8'],
           ['u8_u16_p4_p8', 'u8_u16_p8_p3', 'u16_u32_p12_p16', 'u16_u32_p12_p5', 'u32_u64_p24_p32', 'u32_u64_p24_p8'], soft=[20]),
@@ -253,9 +263,9 @@ PROPS['C15'] = dict(
 M_FIXED = [K('m_fixed_contiguous_p8', 'models', 'fixed_contiguous_p8', tq=1500), K('m_fixed_contiguous_p4', 'models', 'fixed_contiguous_p4', tq=1500),
            K('m_fixed_contiguous_quantile_p8', 'models', 'fixed_contiguous_quantile_p8', tq=1500), K('m_fixed_contiguous_quantile_p4', 'models', 'fixed_contiguous_quantile_p4', tq=1500),
            K('m_fixed_noncontig_p8', 'models', 'fixed_noncontig_p8', tq=900), K('m_fixed_noncontig_p4', 'models', 'fixed_noncontig_p4', tiers=('thorough',)),
-           K('m_fixed_lookup_p4', 'models', 'fixed_lookup_p4', tq=900), K('m_fixed_lookup_p8', 'models', 'fixed_lookup_p8', tiers=('thorough',))]
+           K('m_fixed_lookup_p3', 'models', 'fixed_lookup_p3', tq=900), K('m_fixed_lookup_p8', 'models', 'fixed_lookup_p8', tiers=('thorough',))]
 M_UNIFORM = [K('m_uniform_u8_p8', 'models', 'uniform_u8_p8', tq=600), K('m_uniform_u8_p5', 'models', 'uniform_u8_p5', tq=600)]
-M_FLOAT = [K('m_fast_f32_n3_p4_norm1', 'models', 'fast_f32_n3_p4_norm1', tq=900), K('m_fast_f32_n2_p3_nonorm', 'models', 'fast_f32_n2_p3_nonorm', tq=900)]
+M_FLOAT = [K('m_fast_f32_n3_p4_norm1', 'models', 'fast_f32_n3_p4_norm1', tq=900), K('m_lazy_f32_n3_p4_valid', 'models', 'lazy_f32_n3_p4_valid', tq=900), K('m_fast_f32_n2_p3_nonorm', 'models', 'fast_f32_n2_p3_nonorm', tq=900)]
 M_QUANT = [K('m_quantizer_u8_p4_sup3', 'models', 'quantizer_u8_p4_sup3', tq=1200)]
 MODEL_BOUNDS = ('Probability = u8; supports of <= 3 symbols; PRECISION in {8 (= Probability bits, wrapping total), 4} for fixed-point tables, 4 / 3 for f32 tables '
                 '(n=3 normalised to exactly 1.0; n=2 any finite non-negative entries), leaky quantiser over a stub distribution whose CDF is a fully symbolic f64 table '
@@ -267,8 +277,9 @@ PROPS['C03'] = dict(obligations=M_FIXED + M_UNIFORM + M_FLOAT + M_QUANT, bounds=
                     assumptions=['float inputs satisfy the documented preconditions (finite, non-negative, positive normal sum); stub distribution: monotone table in [0,1]'],
                     stubs=['probability::distribution::{Distribution, Inverse} implemented by a symbolic table (TableDist)'])
 
-PROPS['C05'] = dict(obligations=[K('m_conversions_contiguous_p4', 'models', 'conversions_contiguous_p4', tq=1200), K('m_lazy_vs_eager_f32_n3_p4', 'models', 'lazy_vs_eager_f32_n3_p4', tq=900),
-                                 K('m_fixed_lookup_p4', 'models', 'fixed_lookup_p4', tq=900), K('m_quantizer_u8_p4_sup3', 'models', 'quantizer_u8_p4_sup3', tq=1200)],
+PROPS['C05'] = dict(obligations=[K('m_conv_view', 'models', 'conv_view', tq=900), K('m_conv_symbol_table', 'models', 'conv_symbol_table', tq=900), K('m_conv_lookup', 'models', 'conv_lookup', tq=900),
+                                 K('m_conv_generic_decoder', 'models', 'conv_generic_decoder', tq=900), K('m_conv_generic_lookup', 'models', 'conv_generic_lookup', tq=900), K('m_lazy_vs_eager_f32_n3_p4', 'models', 'lazy_vs_eager_f32_n3_p4', tq=900),
+                                 K('m_fixed_lookup_p3', 'models', 'fixed_lookup_p3', tq=900), K('m_quantizer_u8_p4_sup3', 'models', 'quantizer_u8_p4_sup3', tq=1200)],
                     bounds=MODEL_BOUNDS + '; pairwise equality of (left cumulative, probability) on a symbolic symbol and of quantile_function on a symbolic quantile', outside=MODEL_OUTSIDE,
                     assumptions=[], stubs=['TableDist stub distribution'])
 
@@ -297,7 +308,7 @@ PROPS['C18'] = dict(
     obligations=[K('c18_ans_sizes_u8_u16', 'ans', 'export_u8_u16'), K('c18_ans_sizes_u16_u32', 'ans', 'export_u16_u32'), K('c18_ans_sizes_u32_u64', 'ans', 'export_u32_u64'),
                  K('c18_ans_valid_bits_u8_u16', 'ans', 'binary_u8_u16'), K('c18_ans_valid_bits_u16_u32', 'ans', 'binary_u16_u32', tiers=('thorough',))] + RG[:4] +
                 [K('c18_bit_len_stack', 'bits', 'stack_export_import', tq=900), K('c18_bit_len_queue', 'bits', 'queue_fifo', tq=900),
-                 K('c18_float_views', 'models', 'conversions_contiguous_p4', tq=1200),
+                 K('c18_float_views', 'models', 'conv_symbol_table', tq=900),
                  L('c18_range_exhaustion', 'k_c02_fresh_k2_{cfg}', ['u8_u16_p4'], ['u8_u16_p4', 'u8_u16_p8', 'u16_u32_p12'], cap=dict(quick=90, thorough=600)),
                  L('c18_range_exhaustion_k1', 'k_c02_rt_k1_{cfg}', RQ, RALL, fixes=range_fixes)],
     bounds='as C01/C02/C08/C16: size and emptiness queries compared with the length of the actual export from any raw state; exhaustion after exactly the encoded symbols (k <= 2); '
@@ -310,7 +321,8 @@ PROPS['C18'] = dict(
 PROPS['C07'] = dict(
     obligations=[K('c07_ans_seek_u8_u16_p4', 'rangek', 'ans_seek_u8_u16_p4', tq=1200), K('c07_ans_seek_reversed_u8_u16_p4', 'rangek', 'ans_seek_reversed_u8_u16_p4', tq=1200),
                  L('c07_range_seek_k1', 'k_c07_range_seek_k1_{cfg}', ['u8_u16_p4', 'u16_u32_p12', 'u32_u64_p24'], ['u8_u16_p4', 'u8_u16_p8', 'u16_u32_p12', 'u32_u64_p24'], fixes=range_fixes),
-                 L('c07_range_seek_k2', 'k_c07_range_seek_k2_{cfg}', ['u8_u16_p4'], ['u8_u16_p4', 'u8_u16_p8', 'u16_u32_p12'], cap=dict(quick=90, thorough=900))],
+                 L('c07_range_seek_from_inverted', 'k_c07_range_seek_inv_{cfg}', ['u8_u16_p4', 'u16_u32_p12', 'u32_u64_p24'], ['u8_u16_p4', 'u8_u16_p8', 'u16_u32_p12', 'u32_u64_p24'], fixes=range_fixes),
+                 L('c07_range_seek_k2', 'k_c07_range_seek_k2_{cfg}', [], ['u8_u16_p4', 'u8_u16_p8', 'u16_u32_p12'], cap=dict(quick=90, thorough=900), explore_cap=dict(quick=300, thorough=3000))],
     bounds='ANS: k <= 2 symbols into the real Vec, snapshots at every boundary, borrowed / consuming / reversed seekable decoders, two seeks in a symbolic order; '
            'range coder: k <= 2 symbols from the fresh encoder or any Normal raw state, snapshots at every boundary incl. while words are held back, the library Cursor over a slice, two seeks in symbolic order',
     outside='k > 2; the back-end Seek contracts themselves are C17',
@@ -347,7 +359,7 @@ _C20_SHARED = [o for pid in ('C17', 'C01', 'C16', 'C03', 'C19', 'C08') for o in 
                    'c01_ctor_u8_u16', 'c01_ctor_u32_u64', 'c01_reimport_u16_u32', 'c01_export_u32_u64',
                    'c16_stack_export_import', 'c16_queue_fifo', 'c16_expgolomb_u8',
                    'm_uniform_u8_p8', 'm_uniform_u8_p5', 'm_fast_f32_n3_p4_norm1', 'm_quantizer_u8_p4_sup3', 'm_fast_f32_n2_p3_anyinput', 'm_uniform_rejects',
-                   'm_fixed_contiguous_p8', 'm_fixed_contiguous_quantile_p8', 'm_fixed_noncontig_p8', 'm_fixed_lookup_p4',
+                   'm_fixed_contiguous_p8', 'm_fixed_contiguous_p4', 'm_fixed_contiguous_quantile_p8', 'm_fixed_noncontig_p8', 'm_fixed_lookup_p3',
                    'c08_range_guard_inverted_u8_u16', 'c08_bit_stack_guard')]
 _seen = set(); _C20 = []
 for o in _C20_SHARED:
